@@ -712,3 +712,286 @@ Proof.
   specialize (Hs Hm).
   destruct (sub_loop MAX_SUBMESSAGES (flat_map (enc_sub e) ps)) as [r c]. cbn [fst] in Hs. subst r. reflexivity.
 Qed.
+
+Theorem length_fields_exact_struct : forall e ps, Forall (fits e) ps ->
+  lengths_exact e (map sub_id ps) (flat_map (enc_sub e) ps) = true.
+Proof.
+  intros e ps; induction ps as [|p t IH]; intros Hf; [reflexivity|].
+  pose proof (Forall_inv Hf) as Hl. pose proof (Forall_inv_tail Hf) as Hft. unfold fits in Hl.
+  cbn [flat_map map]. unfold enc_sub at 1.
+  pose proof (is_le_flags e (sub_flags p) (sub_flags_length p)) as Hle.
+  destruct (enc_len_field e _ (len (enc_body e p)) Hle ltac:(pose proof (len_nonneg _ (enc_body e p)); lia)) as (b2 & b3 & E23 & Esl).
+  rewrite E23. cbn [app lengths_exact]. rewrite Esl, Hle, Z.eqb_refl, Bool.eqb_reflx. cbn [andb].
+  rewrite len_app. pose proof (len_nonneg _ (flat_map (enc_sub e) t)).
+  destruct (Z.leb_spec (len (enc_body e p)) (len (enc_body e p) + len (flat_map (enc_sub e) t))); [|lia]. cbn [andb].
+  replace (Z.to_nat (len (enc_body e p))) with (length (enc_body e p)) by (unfold len; lia).
+  rewrite skipn_app_exact by reflexivity. apply IH; exact Hft.
+Qed.
+
+(* ------------------------------------------------ sets as base + member list *)
+Lemma in_i64b_true : forall z, in_i64b z = true -> in_i64 z.
+Proof. intros z H; unfold in_i64b in H; apply andb_true_iff in H as [A B]; apply Z.leb_le in A, B; split; assumption. Qed.
+Lemma in_i32b_true : forall z, in_i32b z = true -> in_i32 z.
+Proof. intros z H; unfold in_i32b in H; apply andb_true_iff in H as [A B]; apply Z.leb_le in A, B; split; assumption. Qed.
+Lemma in_u32b_true : forall z, in_u32b z = true -> in_u32 z.
+Proof. intros z H; unfold in_u32b in H; apply andb_true_iff in H as [A B]; apply Z.leb_le in A, B; split; assumption. Qed.
+Lemma in_u16b_true : forall z, in_u16b z = true -> in_u16 z.
+Proof. intros z H; unfold in_u16b in H; apply andb_true_iff in H as [A B]; apply Z.leb_le in A, B; split; assumption. Qed.
+Lemma arrb_length : forall n l, arrb n l = true -> length l = n.
+Proof. intros n l H; unfold arrb in H; apply andb_true_iff in H as [A _]; apply Nat.eqb_eq; exact A. Qed.
+
+Lemma valid_snsetb_spec : forall s, valid_snsetb s = true ->
+  in_i64 (ns_base s) /\ valid_ms (ns_base s) (ns_members s) /\ Forall in_i64 (ns_members s).
+Proof.
+  intros s H. unfold valid_snsetb in H. apply andb_true_iff in H as [Hb Hm]. apply in_i64b_true in Hb.
+  rewrite forallb_forall in Hm. split; [exact Hb|]. split; apply Forall_forall; intros m Hin; specialize (Hm m Hin);
+    apply andb_true_iff in Hm as [Hm H3]; apply andb_true_iff in Hm as [H1 H2].
+  - apply Z.leb_le in H2. apply Z.ltb_lt in H3. lia.
+  - apply in_i64b_true; exact H1.
+Qed.
+Lemma valid_fnsetb_spec : forall s, valid_fnsetb s = true ->
+  in_u32 (ns_base s) /\ valid_ms (ns_base s) (ns_members s) /\ Forall in_u32 (ns_members s).
+Proof.
+  intros s H. unfold valid_fnsetb in H. apply andb_true_iff in H as [Hb Hm]. apply in_u32b_true in Hb.
+  rewrite forallb_forall in Hm. split; [exact Hb|]. split; apply Forall_forall; intros m Hin; specialize (Hm m Hin);
+    apply andb_true_iff in Hm as [Hm H3]; apply andb_true_iff in Hm as [H1 H2].
+  - apply Z.leb_le in H2. apply Z.ltb_lt in H3. lia.
+  - apply in_u32b_true; exact H1.
+Qed.
+
+(* SequenceNumberSet::new on a valid set: a well-formed struct whose iterator lists the
+   canonical members *)
+Lemma snset_new_valid : forall s, valid_snsetb s = true ->
+  exists x, snset_new (ns_base s) (ns_members s) = Ok x /\ wf_snset x /\ ss_base x = ns_base s /\
+            snset_members x = Ok (canon_members (ns_members s)).
+Proof.
+  intros [base ms] H. apply valid_snsetb_spec in H as (Hb & Hv & Hr); cbn [ns_base ns_members] in *.
+  unfold snset_new. rewrite snset_new_loop_pure by exact Hv. cbn [bind].
+  destruct (new_pure_wf_set base ms Hv) as [Hs Hbits]. cbv zeta in Hs, Hbits.
+  pose proof (set_list_new_canon base ms Hv) as Hc. cbv zeta in Hc.
+  set (r := new_pure base ms 0 zero_map) in *.
+  eexists; split; [reflexivity|]. split; [|split; [reflexivity|]].
+  - split; [exact Hb|apply wf_set_map; exact Hs].
+  - unfold snset_members; cbn [ss_base ss_bits ss_map].
+    rewrite members_from_list; [rewrite Hc; reflexivity|].
+    intros j Hj Hbit. destruct Hs as [_ Hn _ _].
+    apply Hbits in Hbit; [|lia]. rewrite Forall_forall in Hr. specialize (Hr _ Hbit). unfold in_i64 in Hr. lia.
+Qed.
+Lemma fnset_new_valid : forall s, valid_fnsetb s = true ->
+  exists x, fnset_new (ns_base s) (ns_members s) = Ok x /\ wf_fnset x /\ fs_base x = ns_base s /\
+            fnset_members x = Ok (canon_members (ns_members s)).
+Proof.
+  intros [base ms] H. apply valid_fnsetb_spec in H as (Hb & Hv & Hr); cbn [ns_base ns_members] in *.
+  unfold fnset_new. rewrite fnset_new_loop_pure by exact Hv. cbn [bind].
+  destruct (new_pure_wf_set base ms Hv) as [Hs Hbits]. cbv zeta in Hs, Hbits.
+  pose proof (set_list_new_canon base ms Hv) as Hc. cbv zeta in Hc.
+  set (r := new_pure base ms 0 zero_map) in *.
+  assert (Ho : forall j, 0 <= j < fst r -> bit_set (snd r) j = true -> base + j <= u32_max).
+  { intros j Hj Hbit. destruct Hs as [_ Hn _ _].
+    apply Hbits in Hbit; [|lia]. rewrite Forall_forall in Hr. specialize (Hr _ Hbit). unfold in_u32 in Hr. lia. }
+  eexists; split; [reflexivity|]. split; [|split; [reflexivity|]].
+  - split; [exact Hb|]. split; [exact Hs|]. cbn [fs_base fs_bits fs_map]. exact Ho.
+  - unfold fnset_members; cbn [fs_base fs_bits fs_map].
+    rewrite members_from_list; [rewrite Hc; reflexivity|].
+    intros j Hj Hbit. apply Ho; [lia|exact Hbit].
+Qed.
+
+(* ------------------------------------------- encoded lengths do not depend on e *)
+Lemma len_enc_words : forall e ws, len (enc_words e ws) = 4 * len ws.
+Proof.
+  intros e ws; induction ws as [|w t IH]; cbn [enc_words flat_map]; [reflexivity|].
+  fold (enc_words e t). rewrite len_app, len_enc_int, IH, len_cons. lia.
+Qed.
+Lemma len_enc_snset : forall e s, len (enc_snset e s) = len (enc_snset true s).
+Proof. intros; unfold enc_snset; rewrite !len_app, !len_enc_sn, !len_enc_int, !len_enc_words; reflexivity. Qed.
+Lemma len_enc_fnset : forall e s, len (enc_fnset e s) = len (enc_fnset true s).
+Proof. intros; unfold enc_fnset; rewrite !len_app, !len_enc_int, !len_enc_words; reflexivity. Qed.
+Lemma len_enc_params : forall e ps, len (enc_param_list e ps) = len (enc_param_list true ps).
+Proof.
+  intros e ps; unfold enc_param_list. rewrite !len_app, !len_enc_int. f_equal.
+  induction ps as [|p t IH]; cbn [flat_map]; [reflexivity|].
+  rewrite !len_app, IH. unfold enc_param. rewrite !len_app, !len_enc_int. reflexivity.
+Qed.
+Lemma len_enc_loclist : forall e ls, len (enc_locator_list e ls) = len (enc_locator_list true ls).
+Proof.
+  intros e ls; unfold enc_locator_list. rewrite !len_app, !len_enc_int. f_equal.
+  induction ls as [|l t IH]; cbn [flat_map]; [reflexivity|].
+  rewrite !len_app, IH. unfold enc_locator. rewrite !len_app, !len_enc_int. reflexivity.
+Qed.
+Lemma len_enc_body : forall e p, len (enc_body e p) = len (enc_body true p).
+Proof.
+  intros e p; destruct p; cbn [enc_body]; try reflexivity;
+    repeat rewrite len_app; rewrite ?len_enc_int, ?len_enc_sn; try reflexivity.
+  - rewrite (len_enc_snset e). reflexivity.
+  - destruct q; [rewrite (len_enc_params e)|]; reflexivity.
+  - destruct q; [rewrite (len_enc_params e)|]; reflexivity.
+  - rewrite (len_enc_snset e). reflexivity.
+  - rewrite (len_enc_loclist e uni). destruct mflag; [rewrite (len_enc_loclist e multi)|]; reflexivity.
+  - destruct inval; [reflexivity|]. rewrite !len_app, !len_enc_int. reflexivity.
+  - rewrite (len_enc_fnset e). reflexivity.
+Qed.
+
+(* ------------------------------------------------------- one submessage, user level *)
+Lemma wf_params_of : forall qos, forallb wf_paramb qos = true -> existsb param_too_long qos = false ->
+  Forall wf_param qos.
+Proof.
+  intros qos H1 H2. apply Forall_forall. intros p Hp.
+  rewrite forallb_forall in H1. specialize (H1 p Hp).
+  assert (H3 : param_too_long p = false).
+  { destruct (param_too_long p) eqn:E; [|reflexivity].
+    assert (existsb param_too_long qos = true) by (apply existsb_exists; exists p; auto). congruence. }
+  unfold wf_paramb in H1. repeat (apply andb_true_iff in H1 as [H1 ?]).
+  unfold wf_param, param_too_long in *. apply Z.ltb_ge in H3.
+  repeat split; try (apply Z.leb_le; assumption); try assumption.
+  intros E. rewrite E in H0. discriminate.
+Qed.
+
+Ltac split_wf H :=
+  repeat match type of H with
+         | (_ && _) = true => let H' := fresh "W" in apply andb_true_iff in H as [H H']
+         end.
+
+Ltac wf_leaf :=
+  first [ apply arrb_length; assumption | apply in_i32b_true; assumption | apply in_i64b_true; assumption
+        | apply in_u32b_true; assumption | apply in_u16b_true; assumption | assumption ].
+Ltac wf_conj := repeat match goal with |- _ /\ _ => split end; try wf_leaf.
+
+Lemma build_sub_ok : forall e s, wf_subb s = true -> C08_known_len s = false -> C08_known_reply s = false ->
+  exists p, build_sub s = Ok p /\ wfp p /\ fits e p /\ observe_sub (pcanon p) = Ok (canon_sub s) /\ sub_id p = sub_id s.
+Proof.
+  intros e s Hw Hk Hr.
+  unfold C08_known_len in Hk. apply orb_false_iff in Hk as [Hlen Hq]. apply Z.ltb_ge in Hlen. unfold body_len in Hlen.
+  assert (Fit : forall p, build_sub s = Ok p -> fits e p).
+  { intros p Hp. rewrite Hp in Hlen. unfold fits. rewrite len_enc_body. exact Hlen. }
+  destruct s; cbn [wf_subb] in Hw; cbn [qos_of] in Hq.
+  - (* AckNack *) split_wf Hw.
+    destruct (snset_new_valid state ltac:(assumption)) as (x & Hx & Hwx & Hbx & Hmx).
+    exists (AckNack final rid wid x count). cbn [build_sub]. rewrite Hx. cbn [bind].
+    split; [reflexivity|]. split; [|split; [apply Fit; cbn [build_sub]; rewrite Hx; reflexivity|]].
+    + cbn [wfp]. wf_conj.
+    + cbn [pcanon observe_sub canon_sub sub_id]. rewrite Hmx, Hbx. cbn [bind]. split; reflexivity.
+  - (* Data *) split_wf Hw.
+    exists (Data q d k n rid wid sn qos payload). split; [reflexivity|]. split; [|split; [apply Fit; reflexivity|split; reflexivity]].
+    cbn [wfp]. wf_conj.
+    intros ->. apply wf_params_of; assumption.
+  - (* DataFrag *) split_wf Hw.
+    exists (DataFrag q k n rid wid sn fstart fcount fsize dsize qos payload).
+    split; [reflexivity|]. split; [|split; [apply Fit; reflexivity|split; reflexivity]].
+    cbn [wfp]. wf_conj.
+    intros ->. apply wf_params_of; assumption.
+  - (* Gap *) split_wf Hw.
+    destruct (snset_new_valid gl ltac:(assumption)) as (x & Hx & Hwx & Hbx & Hmx).
+    exists (Gap rid wid start x). cbn [build_sub]. rewrite Hx. cbn [bind].
+    split; [reflexivity|]. split; [|split; [apply Fit; cbn [build_sub]; rewrite Hx; reflexivity|]].
+    + cbn [wfp]. wf_conj.
+    + cbn [pcanon observe_sub canon_sub sub_id]. rewrite Hmx, Hbx. cbn [bind]. split; reflexivity.
+  - (* Heartbeat *) split_wf Hw.
+    exists (Heartbeat final live rid wid first last count). split; [reflexivity|]. split; [|split; [apply Fit; reflexivity|split; reflexivity]].
+    cbn [wfp]. wf_conj.
+  - (* HeartbeatFrag *) split_wf Hw.
+    exists (HeartbeatFrag rid wid sn lastfrag count). split; [reflexivity|]. split; [|split; [apply Fit; reflexivity|split; reflexivity]].
+    cbn [wfp]. wf_conj.
+  - (* InfoDst *)
+    exists (InfoDst prefix). split; [reflexivity|]. split; [|split; [apply Fit; reflexivity|split; reflexivity]].
+    cbn [wfp]. apply arrb_length; exact Hw.
+  - (* InfoReply *) split_wf Hw.
+    exists (InfoReply mflag uni multi). split; [reflexivity|]. split; [|split; [apply Fit; reflexivity|split; reflexivity]].
+    cbn [wfp]. cbn [C08_known_reply] in Hr. destruct mflag; [discriminate|]. split; [reflexivity|]. split.
+    + apply Forall_forall. intros l Hl. rewrite forallb_forall in Hw. specialize (Hw l Hl).
+      unfold wf_locb in Hw. split_wf Hw. unfold wf_loc. wf_conj.
+    + apply Z.leb_le; assumption.
+  - (* InfoSrc *) split_wf Hw.
+    exists (InfoSrc version vendor prefix). split; [reflexivity|]. split; [|split; [apply Fit; reflexivity|split; reflexivity]].
+    cbn [wfp]. wf_conj.
+  - (* InfoTs *) split_wf Hw.
+    exists (InfoTs inval sec frac). split; [reflexivity|]. split; [|split; [apply Fit; reflexivity|]].
+    + cbn [wfp]. wf_conj.
+    + cbn [pcanon canon_sub sub_id]. destruct inval; split; reflexivity.
+  - (* NackFrag *) split_wf Hw.
+    destruct (fnset_new_valid fstate ltac:(assumption)) as (x & Hx & Hwx & Hbx & Hmx).
+    exists (NackFrag rid wid sn x count). cbn [build_sub]. rewrite Hx. cbn [bind].
+    split; [reflexivity|]. split; [|split; [apply Fit; cbn [build_sub]; rewrite Hx; reflexivity|]].
+    + cbn [wfp]. wf_conj.
+    + cbn [pcanon observe_sub canon_sub sub_id]. rewrite Hmx, Hbx. cbn [bind]. split; reflexivity.
+  - (* Pad *)
+    exists Pad. split; [reflexivity|]. split; [exact I|]. split; [apply Fit; reflexivity|split; reflexivity].
+Qed.
+
+(* --------------------------------------------------------------- whole messages *)
+Lemma mapM_build : forall e subs,
+  forallb wf_subb subs = true -> existsb C08_known_len subs = false -> existsb C08_known_reply subs = false ->
+  exists ps, mapM build_sub subs = Ok ps /\ Forall wfp ps /\ Forall (fits e) ps /\
+             map observe_sub (map pcanon ps) = map (fun s => Ok (canon_sub s)) subs /\
+             map sub_id ps = map sub_id subs /\ length ps = length subs.
+Proof.
+  intros e subs; induction subs as [|s t IH]; intros Hw Hk Hr.
+  - exists []. repeat split; constructor.
+  - cbn [forallb existsb] in *. apply andb_true_iff in Hw as [Hw1 Hw2].
+    apply orb_false_iff in Hk as [Hk1 Hk2]. apply orb_false_iff in Hr as [Hr1 Hr2].
+    destruct (IH Hw2 Hk2 Hr2) as (ps & E & F1 & F2 & M1 & M2 & L).
+    destruct (build_sub_ok e s Hw1 Hk1 Hr1) as (p & Ep & Wp & Fp & Op & Ip).
+    exists (p :: ps). cbn [mapM]. rewrite Ep, E. cbn [bind].
+    split; [reflexivity|]. split; [constructor; assumption|]. split; [constructor; assumption|].
+    cbn [map length]. rewrite Op, M1, Ip, M2, L. repeat split; reflexivity.
+Qed.
+
+Lemma wf_hdrb_wfh : forall h, wf_hdrb h = true -> wfh h.
+Proof.
+  intros h H. unfold wf_hdrb in H. apply andb_true_iff in H as [H H3]. apply andb_true_iff in H as [H1 H2].
+  repeat split; apply arrb_length; assumption.
+Qed.
+
+Theorem message_roundtrip : forall e h subs,
+  wf_hdrb h = true -> forallb wf_subb subs = true -> len subs <= 65536 ->
+  existsb C08_known_len subs = false -> existsb C08_known_reply subs = false ->
+  exists bytes,
+    encode_umessage e h subs = Ok bytes /\
+    parse_observe bytes = Ok (h, map (fun s => Ok (canon_sub s)) subs) /\
+    lengths_exact e (map sub_id subs) (skipn 20 bytes) = true.
+Proof.
+  intros e h subs Hh Hw Hn Hk Hr.
+  destruct (mapM_build e subs Hw Hk Hr) as (ps & E & F1 & F2 & M1 & M2 & L).
+  apply wf_hdrb_wfh in Hh.
+  exists (encode_message e h ps). unfold encode_umessage. rewrite E. cbn [bind].
+  split; [reflexivity|]. split.
+  - unfold parse_observe. rewrite message_roundtrip_struct; auto.
+    + cbn [bind fst snd]. rewrite M1. reflexivity.
+    + unfold len in *. lia.
+  - unfold encode_message. rewrite skipn_app_exact.
+    + rewrite <- M2. apply length_fields_exact_struct; exact F2.
+    + destruct Hh as (H1 & H2 & H3). unfold enc_hdr, RTPS_MAGIC. rewrite !app_length, H1, H2, H3. reflexivity.
+Qed.
+
+(* -------------------------------------- outside the class the round trip is false *)
+Definition big_data : usub := Data false true false false [1;2;3;4] [5;6;7;8] 1 [] (repeat 170 (Z.to_nat 70000)).
+Definition hb : usub := Heartbeat true false [1;2;3;4] [5;6;7;8] 1 1 1.
+Definition h0 : hdr := mk_hdr [2;3] [1;2] [0;1;2;3;4;5;6;7;8;9;10;11].
+Definition big_bytes : list Z := match encode_umessage true h0 [big_data; hb] with Ok b => b | _ => [] end.
+Definition dec_count (d : res (hdr * list (res usub))) : Z := match d with Ok (_, l) => len l | _ => -1 end.
+
+(* a 70 000-byte DATA followed by a HEARTBEAT: well-formed, in the truncation class, and the
+   real layout does not decode back (the decoder finds one submessage, not two) *)
+Lemma roundtrip_refuted_big :
+  wf_hdrb h0 = true /\ forallb wf_subb [big_data; hb] = true /\ C08_known_len big_data = true /\
+  encode_umessage true h0 [big_data; hb] = Ok big_bytes /\
+  parse_observe big_bytes <> Ok (h0, map (fun s => Ok (canon_sub s)) [big_data; hb]) /\
+  lengths_exact true (map sub_id [big_data; hb]) (skipn 20 big_bytes) = false.
+Proof.
+  split; [vm_compute; reflexivity|]. split; [vm_compute; reflexivity|]. split; [vm_compute; reflexivity|].
+  split.
+  { assert (Hok : is_ok (encode_umessage true h0 [big_data; hb]) = true) by (vm_compute; reflexivity).
+    unfold big_bytes. destruct (encode_umessage true h0 [big_data; hb]); [reflexivity|discriminate|discriminate]. }
+  split.
+  - intros H. apply (f_equal dec_count) in H. vm_compute in H. discriminate H.
+  - vm_compute. reflexivity.
+Qed.
+
+Definition reply_m : usub := InfoReply true [mk_loc 1 7400 (repeat 0 16)] [mk_loc 1 7401 (repeat 239 16)].
+Lemma roundtrip_refuted_reply :
+  forallb wf_subb [reply_m] = true /\ C08_known_len reply_m = false /\ C08_known_reply reply_m = true /\
+  exists bytes, encode_umessage true h0 [reply_m] = Ok bytes /\
+    parse_observe bytes = Ok (h0, [Ok (InfoReply false [mk_loc 1 7400 (repeat 0 16)] [])]).
+Proof.
+  split; [vm_compute; reflexivity|]. split; [vm_compute; reflexivity|]. split; [reflexivity|].
+  eexists. split; [reflexivity|]. vm_compute. reflexivity.
+Qed.
